@@ -69,6 +69,43 @@ pub fn plan_for(prop: &str, tier: Tier, seed: u64, verif_dir: &str) -> Option<Pl
 			probes: vec![],
 			exhaustive: false,
 		},
+		"C04" => Plan {
+			property: "C04".into(),
+			tier,
+			seed,
+			jobs: vec![job("lnsim", "receive", n(600, 20000)), job("lnsim", "offchain", n(1500, 20000))],
+			level: "exploration".into(),
+			rule: "TODO".into(),
+			assumptions: t_assumptions.clone(),
+			probes: vec![],
+			exhaustive: false,
+		},
+		"C05" => Plan {
+			property: "C05".into(),
+			tier,
+			seed,
+			jobs: vec![
+				job("lnsim", "offchain", n(2500, 40000)),
+				job("lnsim", "forward", n(400, 10000)),
+				job("lnsim", "crash", n(400, 10000)),
+			],
+			level: "exploration".into(),
+			rule: "TODO".into(),
+			assumptions: t_assumptions.clone(),
+			probes: vec![],
+			exhaustive: false,
+		},
+		"C07" => Plan {
+			property: "C07".into(),
+			tier,
+			seed,
+			jobs: vec![job("lnsim", "onchain", n(600, 20000)), job("lnsim", "forward", n(300, 5000))],
+			level: "exploration".into(),
+			rule: "TODO".into(),
+			assumptions: t_assumptions.clone(),
+			probes: vec![],
+			exhaustive: false,
+		},
 		"C09" => Plan {
 			property: "C09".into(),
 			tier,
